@@ -27,6 +27,10 @@ EXTRA_PROGS = [
     # nosec comments naming IDs next to other findings of the same statement; calls configured through shell_injection
     "import subprocess\nsubprocess.Popen('ls -l', shell=True)  # nosec B602\nsubprocess.run('ls *', shell=True)  # nosec B609, B607\nassert x  # nosec B101\n"
     "subprocess.run(['ls'])\nmyspawn('ls', shell=True)\nexec(y)  # nosec B999\n",
+    # every list of the shared shell_injection section is in play in one file (a check that touched the shared lists would
+    # change what the other checks of the family report)
+    "import os, subprocess\nsubprocess.call(['ls', '-l'])\nos.system('ls -l')\nos.execl('/bin/ls', 'ls')\nos.popen('ls')\nos.spawnl(0, 'ls')\n"
+    "subprocess.Popen(['ls'], shell=False)\nos.execvp('ls', ['ls'])\nmyspawn(['ls'])\nopen('/tmp/zz_f')\n",
 ]
 # user configurations under which the same law must hold (the configuration is the same in both runs)
 CONFIGS = [None,
@@ -113,9 +117,9 @@ def run(R, replay=None):
             cf = os.path.join(impl.scratch(), "c05cfg%d.yaml" % ci)
             yaml.safe_dump(cfg, open(cf, "w"))
             cfg_files.append(cf)
-    for pi, data in enumerate(progs):
-        # examples under the default configuration; the hand-written programs under every configuration in turn
-        cfg_file = cfg_files[pi % len(cfg_files)] if pi >= len(files) else None
+    # examples under the default configuration; every hand-written program under every configuration
+    jobs = [(d_, None) for d_ in progs[:len(files)]] + [(d_, c_) for d_ in progs[len(files):] for c_ in cfg_files]
+    for pi, (data, cfg_file) in enumerate(jobs):
         full = impl.scan_bytes(data, config_file=cfg_file)
         if full["skipped"]:
             continue
